@@ -35,7 +35,17 @@ class C02(core.Check):
     def oracle(self, res, boost):
         jesse_env.setup()
         rng = random.Random(self.seed * 104729 + 6)
-        for sess in self.sessions(self.budget(60, 1200, boost), rng):
+        # the witnesses of the open known findings run first (so that each one is re-confirmed on every run)
+        witnesses = []
+        for k in core.load_known():
+            if k['property'] == 'C02' and k.get('status') == 'open' and 'session' in k.get('witness', {}):
+                w = dict(k['witness']['session'])
+                w['routes'] = [tuple(x) for x in w['routes']]
+                w['droutes'] = [tuple(x) for x in w['droutes']]
+                w.setdefault('syms', sorted({x for x, _ in w['routes']}))
+                w.setdefault('balance', 100_000)
+                witnesses.append(w)
+        for sess in witnesses + self.sessions(self.budget(60, 1200, boost), rng):
             cands = engcorr.candles_of(sess)
             ev, tr, err = engcorr.run_real(sess, cands)
             step = 1
@@ -59,7 +69,8 @@ class C02(core.Check):
                                                                          'droutes', 'n', 'scripts', 'candle_seed', 'vol', 'gap_prob')}},
                             'observed': {'order': k, 'info': {a: b for a, b in info.items()}},
                             'params': {'simulator': 'fast' if sess['fast'] else 'step',
-                                       'in_gap_only': bool(info.get('in_gap_only'))}})
+                                       'in_gap_only': bool(info.get('in_gap_only')),
+                                       'market_priced_at_path_position': info.get('market_priced_at_path_position')}})
             if not bad and len(res.samples) < 3:
                 res.sample({'routes': sess['routes'], 'fast': sess['fast'], 'orders': len(tr.orders),
                             'max_fills_in_one_minute': max(multi.values()) if multi else 0})
